@@ -212,8 +212,10 @@ func runC01(r *rep.R) {
 								// BMC alphabet: all 4x4 for boundary user/password lengths, diagonal otherwise
 								for pat := 0; pat < 4; pat++ {
 									for sid := 0; sid < 4; sid++ {
+										// full 4x4 BMC alphabet for the nine must-succeed suites; diagonal
+										// (plus all 16 at boundary lengths) for the None suites
 										boundary := (ul == 0 || ul == 16) && (pl == 0 || pl == 20)
-										if !boundary && pat != sid {
+										if isNoneSuite(s) && !boundary && pat != sid {
 											continue
 										}
 										do(c01Case{Suite: s, ULen: ul, PLen: pl, KG: kg, Priv: priv, Lookup: lk, BMCPat: pat, SIDSel: sid})
@@ -279,7 +281,7 @@ func runC01(r *rep.R) {
 	}
 	r.Bound("suites", len(all))
 	if full {
-		r.Bound("product", "suite x ulen 0..16 x plen 0..20 x KG x priv 0..5 x lookup, x BMC (random/GUID pattern, session ID): all 16 at boundary lengths, 4 diagonal elsewhere")
+		r.Bound("product", "suite x ulen 0..16 x plen 0..20 x KG x priv 0..5 x lookup x all 16 BMC (random/GUID pattern, session ID) choices for the nine must-succeed suites; None suites: 16 at boundary lengths, 4 diagonal elsewhere")
 	} else {
 		r.Bound("product", "each axis complete against boundary sets of the others (quick)")
 	}
